@@ -40,18 +40,28 @@ func H_C16_round() {
 
 // H_C16_parse: ParseHdrLine assigns exactly refHdrType to the name it accepts
 // (W symbolic name bytes, optional blank before the colon).
-func H_C16_parse(n int, sp int) {
+func H_C16_parse(n int, sp int) { c16parse(n, sp, 0) }
+
+// H_C16_parse_at: the header line starts at offset k of the buffer.
+func H_C16_parse_at(n, sp, k int) { c16parse(n, sp, k) }
+
+func c16parse(n, sp, k int) {
 	name := vBytes(n)
 	buf := append([]byte(nil), name...)
-	if sp != 0 {
+	if sp == 1 {
 		buf = append(buf, ' ')
+	} else if sp == 2 {
+		buf = append(buf, '\t', ' ')
 	}
 	buf = append(buf, ':', 'x', '\r', '\n', 'Y')
+	if k > 0 {
+		buf = vPad(k, []byte{'\r', '\n'}, buf)
+	}
 	var h Hdr
-	o, e := ParseHdrLine(buf, 0, &h, nil)
+	o, e := ParseHdrLine(buf, k, &h, nil)
 	vObs("o", o)
 	vObs("e", int(e))
-	if e == 0 && int(h.Name.Len) == n && h.Name.Offs == 0 {
+	if e == 0 && int(h.Name.Len) == n && int(h.Name.Offs) == k {
 		vAssert("parsed-type", int(h.Type) == refHdrType(name))
 		vReach("accepted")
 	}
